@@ -18,6 +18,7 @@
 package parse
 
 import (
+	"encoding/json"
 	"errors"
 	"fmt"
 	"strconv"
@@ -325,23 +326,34 @@ func (p *flagParser) parseKey() (string, error) {
 
 func (p *flagParser) parseStringDQuote() (string, error) {
 	in := p.input
-	off := 1
-	var i int
-	for {
-		i = strings.IndexByte(in[off:], '"')
-		if i < 0 {
-			return "", errors.New("Missing \" to close string ")
-		}
 
-		i += off
-		if in[i-1] != '\\' {
+	// find the closing quote; a backslash takes the byte behind it with it, so
+	// that neither \" nor \\ (a string ending in a backslash) is misread
+	i := 1
+	for ; i < len(in); i++ {
+		if in[i] == '\\' {
+			i++
+			continue
+		}
+		if in[i] == '"' {
 			break
 		}
-		off = i + 1
+	}
+	if i >= len(in) {
+		return "", errors.New("Missing \" to close string ")
 	}
 
 	p.input = in[i+1:]
-	return strconv.Unquote(in[:i+1])
+	lit := in[:i+1]
+	str, err := strconv.Unquote(lit)
+	if err != nil {
+		// escapes that JSON knows and Go does not: \/ and surrogate pairs
+		var js string
+		if json.Unmarshal([]byte(lit), &js) == nil {
+			return js, nil
+		}
+	}
+	return str, err
 }
 
 func (p *flagParser) parseStringSQuote() (string, error) {
